@@ -4,6 +4,7 @@ import (
 	"fmt"
 	"go/constant"
 	"go/types"
+	"math/big"
 	"sort"
 	"strconv"
 	"strings"
@@ -392,13 +393,15 @@ func c09R4(r *Run, pf, mf, rv *c09fn) {
 	}
 	// (d) tag validation and byteCount
 	if fn := r.Fn("tls.fieldTagToFieldInfo"); fn != nil {
-		r.FailEdge(fn, "fieldTagToFieldInfo", EdgeSpec{Name: "size-unknown", Atom: ordAtomR("*.count", "1"), Bad: "<", Want: wantErr(true)})
-		r.FailEdge(fn, "fieldTagToFieldInfo", EdgeSpec{Name: "size-above-8", Atom: ordAtomR("*.count", "8"), Bad: ">", Want: wantErr(true)})
-		r.FailEdge(fn, "fieldTagToFieldInfo", EdgeSpec{Name: "range-inverted", Atom: ordAtomR("*.minlen", "*.maxlen"), Bad: ">", Want: wantErr(true)})
+		r.failEdgeConst(fn, "fieldTagToFieldInfo", EdgeSpec{Name: "size-unknown", Atom: ordAtomR("*.count", "1"), Bad: "<", Want: wantErr(true)})
+		r.failEdgeConst(fn, "fieldTagToFieldInfo", EdgeSpec{Name: "size-above-8", Atom: ordAtomR("*.count", "8"), Bad: ">", Want: wantErr(true)})
+		r.failEdgeConst(fn, "fieldTagToFieldInfo", EdgeSpec{Name: "range-inverted", Atom: ordAtomR("*.minlen", "*.maxlen"), Bad: ">", Want: wantErr(true)})
 	}
 	if fn := r.Fn("tls.byteCount"); fn != nil {
 		atoms := r.D.AtomsOf(fn)
-		eval := func(x uint64) string {
+		// the chain of thresholds: every comparison is x against a constant, each outcome of the
+		// chain returns a constant
+		table := func(x uint64) string {
 			s := Sigma{}
 			for k, ci := range atoms {
 				if ci.Kind != "ord" {
@@ -432,14 +435,48 @@ func c09R4(r *Run, pf, mf, rv *c09fn) {
 			}
 			return r.D.D(rets[0].Results[0])
 		}
+		// Not a chain of thresholds (computed some other way, e.g. from math/bits.Len64): what the
+		// obligation asks is the VALUE byteCount takes at x, and for an integer function without
+		// loads and foreign calls that value is decided by running its SSA form on x (intRun;
+		// anything it does not model leaves the answer undecided).
+		ran := false
+		eval := func(x uint64) string {
+			got := table(x)
+			if _, err := strconv.ParseUint(got, 10, 64); err == nil {
+				return got
+			}
+			v, why := r.intRun(fn, []*big.Int{new(big.Int).SetUint64(x)})
+			if v == nil {
+				return got + " (" + why + ")"
+			}
+			ran = true
+			return v.String()
+		}
 		for k := uint64(1); k <= 8; k++ {
 			lo := uint64(1) << (8 * (k - 1))
 			if k == 1 {
 				lo = 0
 			}
 			hi := uint64(1)<<(8*k-1)*2 - 1 // 2^(8k) - 1 without overflowing at k = 8
+			ran = false
 			gl, gh := eval(lo), eval(hi)
-			r.Check(fmt.Sprintf("byteCount[%d]", k), gl == fmt.Sprint(k) && gh == fmt.Sprint(k), r.FnPos(fn), fmt.Sprintf("byteCount(%d)=%s, byteCount(%d)=%s; %d bytes hold exactly the values up to 2^%d−1", lo, gl, hi, gh, k, 8*k))
+			ok := gl == fmt.Sprint(k) && gh == fmt.Sprint(k)
+			more := ""
+			if ok && ran {
+				// a computed result is sampled inside the range as well: at both ends of every
+				// run of values of equal bit length (2^j and 2^(j+1)−1 for 8(k−1) ≤ j < 8k)
+				more = "; likewise at 2^j and 2^(j+1)−1 for every j from " + fmt.Sprint(8*(k-1)) + " to " + fmt.Sprint(8*k-1)
+			samples:
+				for j := 8 * (k - 1); j < 8*k; j++ {
+					for _, x := range []uint64{uint64(1) << j, uint64(1)<<j*2 - 1} {
+						if g := eval(x); g != fmt.Sprint(k) {
+							ok, more = false, fmt.Sprintf("; byteCount(%d)=%s", x, g)
+							break samples
+						}
+					}
+				}
+			}
+			r.Check(fmt.Sprintf("byteCount[%d]", k), ok, r.FnPos(fn), fmt.Sprintf("byteCount(%d)=%s, byteCount(%d)=%s%s; %d bytes hold exactly the values up to 2^%d−1", lo, gl, hi, gh, more, k, 8*k))
 		}
 	}
 	// (e) the entry points hand errors up
@@ -738,7 +775,30 @@ func c09R9(r *Run, fns ...*c09fn) {
 				}
 			}
 		})
-		r.Check("count-source:byteCount-returns-at-most-8", ok && n > 0, r.FnPos(bc), fmt.Sprintf("%d returned constants, all in [0,8]: %v", n, ok))
+		detail := fmt.Sprintf("%d returned constants, all in [0,8]: %v", n, ok)
+		if !ok {
+			// not constants: bound every returned value by its construction (intInterval: value
+			// ranges of math/bits.Len*, constants and wrap-free arithmetic, no branch conditions)
+			ok, n = true, 0
+			detail = "returned values:"
+			eight := big.NewInt(8)
+			eachInstr(bc, func(in ssa.Instruction) {
+				if ret, isRet := in.(*ssa.Return); isRet && len(ret.Results) == 1 {
+					n++
+					lo, hi, known := r.intInterval(ret.Results[0], map[ssa.Value]bool{})
+					if !known || lo.Sign() < 0 || hi.Cmp(eight) > 0 {
+						ok = false
+					}
+					if known {
+						detail += fmt.Sprintf(" %s in [%s,%s]", r.D.D(ret.Results[0]), lo, hi)
+					} else {
+						detail += " " + r.D.D(ret.Results[0]) + " not an integer"
+					}
+				}
+			})
+			detail += "; all within [0,8]: " + fmt.Sprint(ok)
+		}
+		r.Check("count-source:byteCount-returns-at-most-8", ok && n > 0, r.FnPos(bc), detail)
 	}
 	// writers of fieldInfo.count
 	ws := r.FieldWriters("tls.fieldInfo.count")
